@@ -22,7 +22,22 @@ type Options interface {
 }
 
 func (d *Dumper) WrapResponseBodyReadCloser(rc io.ReadCloser) io.ReadCloser {
+	if rwc, ok := rc.(io.ReadWriteCloser); ok {
+		// The body of a "101 Switching Protocols" response is the connection:
+		// keep it writable.
+		return &dumpResponseBodyReadWriteCloser{dumpResponseBodyReadCloser{rc, d}, rwc}
+	}
 	return &dumpResponseBodyReadCloser{rc, d}
+}
+
+// dumpResponseBodyReadWriteCloser dumps what is read and passes writes through.
+type dumpResponseBodyReadWriteCloser struct {
+	dumpResponseBodyReadCloser
+	w io.Writer
+}
+
+func (r *dumpResponseBodyReadWriteCloser) Write(p []byte) (int, error) {
+	return r.w.Write(p)
 }
 
 type dumpResponseBodyReadCloser struct {
